@@ -18,6 +18,54 @@ CHECKS = {
             "trace-specification monitor (T-air/T-shape): every AIR transition constraint and boundary assertion evaluated on every row of every generated execution, several random challenges in two extension fields, three capacity hints; rel + debug-assertions lanes",
             "Held on K honest traces; evidence lists opcodes seen on rows, regimes, lengths; challenges are sampled.",
             "ProcessorAir::evaluate_transition/get_assertions are the executable specification", "DESIGN.md §4 C03"),
+    "C04": ("fault_enumeration",
+            "F-cell fault injection: single-cell alterations (20 wrong values each: neighbours, +-1, 0, 1, 2v, +2^16, +2^32, -v, 12 random) of every enforced cell of sampled honest transitions, judged by the real evaluate_transition (+ b_range aux constraint); enforced-set table written from the design docs",
+            "Every mutant of an enforced cell on K honest frames was killed (or is reported); evidence lists killed/escaped per (operation or chiplet row kind, cell, role), free/outside-statement cells, and which constraints ever fired.",
+            "single-cell single-transition alterations; enforced-set table (docs) is the trusted base", "DESIGN.md §4 C04"),
+    "C06": ("exploration",
+            "reference-model monitor: scripted condition values (0, 1, non-binary at if / loop entry / after an iteration) driven through generated if/while/repeat/exec nestings; executed path read back from a marker log and compared with a reference evaluator; metamorphic pairs repeat.n vs n copies and exec vs inlined body; rel + dbg lanes",
+            "Held on K generated control-flow programs covering every decision kind x nesting depth 1..3 x condition class.",
+            "reference evaluator written from flow_control.md / code_organization.md", "DESIGN.md §4 C06"),
+    "C07": ("exploration",
+            "offline history checker: generated call/syscall/dyncall/dynexec/exec nestings performing loads and stores over a small colliding address set with unique values; every probe (recording host), final memory of every context and the memory-chiplet rows of the trace are replayed against a context/memory model; invalid addresses and bad return depths must fail",
+            "Held on K histories covering every memory op kind in root/call/nested-call/syscall contexts and every invalid-address class.",
+            "M-ctx model written from execution_contexts.md and io_operations.md", "DESIGN.md §4 C07"),
+    "C08": ("exploration",
+            "reference-model monitor: spec batcher + RPO (miden-crypto called directly) recompute span and control-node hashes; exhaustive push/non-push patterns up to a length bound plus random spans, MAST walks of generated/stdlib/example programs, metamorphic source edits (comments, names, debug mode, decorators vs. op/immediate changes), hash recorded by execution",
+            "Held on K spans (all patterns to the bound) and K MAST nodes; evidence lists accumulator states and node kinds reached.",
+            "M-mast written from programs.md / decoder/main.md; miden-crypto RPO trusted", "DESIGN.md §4 C08"),
+    "C09": ("fault_enumeration",
+            "fault injection with a scripted dishonest Host: every hint / Merkle path a host can return is replaced by wrong values (exhaustive over small ranges, boundary and random elsewhere, structurally wrong paths); oracle = execution fails or the result equals the native reference",
+            "Every dishonest run either failed or produced the correct result (or is reported); evidence lists instruction x hint-relation coverage and the panics observed.",
+            "native references (bit ops, u64 division, extension-field inverse, MerkleTree)", "DESIGN.md §4 C09"),
+    "C10": ("exploration",
+            "round-trip monitor: generated sources covering every serde opcode and immediate form parsed, serialised/deserialised under all option combinations, compared under the library's equality and recompiled (same MAST root, kernel, outputs); libraries, program info, kernels, stack inputs/outputs, proofs likewise",
+            "Held on K ASTs / values; every serde opcode encoded (floor).",
+            "equality as defined by the library (after source-location / import-info restoration)", "DESIGN.md §4 C10"),
+    "C11": ("exploration",
+            "history monitor: random compilation sequences on one assembler instance vs. a fresh instance per program (root, kernel, code-block table, run-time availability of statically referenced targets), library-order permutations, re-exports, and a corpus of invalid sources that must be rejected without panic; rel + dbg lanes",
+            "Held on K compilation histories covering every invocation kind cold and warm and every invalid class.",
+            "rejection classes taken from the assembly docs", "DESIGN.md §4 C11"),
+    "C12": ("exploration",
+            "offline conservation checker over the main trace as event log (T-bus: multiset equality of request and response tuples for memory, bitwise, kernel ROM, hasher, range checks) plus row-level check of the real auxiliary columns (T-aux: b_chip per-row factors from the T-bus messages, chain products for block-stack / block-hash / op-group / sibling / kernel tables, terminal values) for random challenges",
+            "Held on K traces covering every bus message kind; imbalances are attributed to the operation or table event.",
+            "message formats from docs/src/design; RESPAN absorb compared semantically", "DESIGN.md §4 C12"),
+    "C16": ("exploration",
+            "reference-model monitor: every exported procedure of std::math::u64 and u256 run on limb-boundary grids, all shift amounts and random operands with a canary below; oracle = native u64/u128/BigUint arithmetic; AIR side monitor on a sample",
+            "Held on K (procedure, operands) cases incl. the full {0,1,2^32-1}^4 grid per binary procedure.",
+            "native integer arithmetic", "DESIGN.md §4 C16"),
+    "C17": ("exploration",
+            "reference-model monitor: blake3 / sha256 / keccak256 procedures vs. the blake3, sha2, sha3 crates on structured and random blocks; native RPO helpers vs. Rpo256 on memory-resident sequences",
+            "Held on K digests covering every exported procedure and length class.",
+            "reference crates", "DESIGN.md §4 C17"),
+    "C18": ("exploration",
+            "lock-step monitor: truncate_stack at every depth 16..80, memcopy / pipe_* against a memory model, SMT and MMR operation sequences against miden-crypto's native Smt / Mmr (advice derived from the native structure before each step)",
+            "Held on K operation sequences covering every SMT leaf-state transition and MMR merge depth.",
+            "native Smt / Mmr / Rpo256", "DESIGN.md §4 C18"),
+    "C19": ("fault_enumeration",
+            "hostile-bytes monitor: structure-aware mutations of valid encodings and random bytes into every decoder under catch_unwind, decode -> re-encode -> decode equality oracle, verify() on decoded statements, constructor value grids; plus a libFuzzer lane (lanes/C19.sh) with the same oracle",
+            "Every decoder returned Err or a re-encodable value on K mutated inputs (or the panic site is reported).",
+            "allocation pre-sizing from attacker-controlled counts is recorded, not judged", "DESIGN.md §4 C19"),
     "C14": ("exploration",
             "runtime monitor: configuration lattice (re-run, tracing, capacity hints, debug-mode assembly, decorator-stripped source) with cell-by-cell trace comparison; random next()/back() walks of the step iterator checked against the trace row of the same clock (stack incl. overflow model rebuilt from the trace, fmp, ctx, memory-chiplet history); CLK rows",
             "Held on K programs x configurations and K iterator states visited in both directions; evidence lists configurations, direction counts, deep-stack states.",
